@@ -226,4 +226,32 @@ theorem from_sourced (all : List TP) (tps : List TP) : ∀ (acc : List Trigger),
     · rename_i t hb
       exact mergeInto_sourced hs (hsub hd (List.mem_cons_self ..)) hb
 
+/-! ### the loop with its guards: the response is never lost -/
+
+theorem stepRaw_eq (acc : List Trigger) (tp : TP) : stepRaw acc tp = some (stepResponse acc tp) := by
+  unfold stepRaw stepResponse TP.build
+  cases tp.outcome <;> simp [convertResponseGuardsBuild, convertResponseSkipsNone]
+
+theorem raw_eq (tps : List TP) : ∀ acc, convertResponseRaw acc tps = some (convertResponseFrom acc tps) := by
+  induction tps with
+  | nil => intro acc; rfl
+  | cons tp rest ih =>
+    intro acc
+    simp only [convertResponseRaw, stepRaw_eq, Option.bind_some, ih]
+    rfl
+
+theorem mapM_none_of_mem {α β : Type} (f : α → Option β) : ∀ (l : List α) (a : α), a ∈ l → f a = none →
+    l.mapM f = none := by
+  intro l
+  induction l with
+  | nil => intro a h; cases h
+  | cons x xs ih =>
+    intro a hm hf
+    rcases List.mem_cons.mp hm with rfl | h
+    · simp [List.mapM_cons, hf]
+    · simp only [List.mapM_cons]
+      cases f x with
+      | none => rfl
+      | some y => simp [ih a h hf]
+
 end TriggerBuild
